@@ -1,6 +1,7 @@
 SPECIFICATION Spec
 CONSTANTS
   Cols2 = 3
+  Cols2b = 3
   Cols3 = 2
   IdxLen = 3
   Rich = FALSE
